@@ -5,12 +5,16 @@ from vlib import core
 def run(ctx):
     quick = ctx.tier == "quick"
     core.design_check(ctx, "WriteEdit_Docs.tla", "WriteEdit_MC.cfg", timeout=1500)
-    behs = core.generate(ctx, "WriteEdit_Docs.tla", "Gen_WriteEdit_2.cfg" if quick else "Gen_WriteEdit_3.cfg", 0, 0, ctx.seed, bfs=True, timeout=2500)
+    behs = core.generate(ctx, "WriteEdit_Docs.tla", "Gen_WriteEdit_2.cfg", 0, 0, ctx.seed, bfs=True, timeout=2500)      # every sequence of two edits
+    if not quick:
+        # longer sequences by seeded walks (every sequence of three would be millions with the layouts)
+        behs += core.generate(ctx, "WriteEdit_Docs.tla", "Gen_WriteEdit_3.cfg", 5000, 3, ctx.seed, timeout=2500)
+        behs += core.generate(ctx, "WriteEdit_Docs.tla", "Gen_WriteEdit_5.cfg", 2500, 5, ctx.seed, timeout=2500)
     total = len(behs)
-    cap = 20000 if quick else 80000
+    cap = 20000 if quick else 160000
     if len(behs) > cap:
         behs = random.Random(ctx.seed).sample(behs, cap)
-    ctx.say("  behaviours: %d of %d (every sequence of %d edits on each of 7 files in 18 file / layout combinations; each file rendered with seeded odd spacing, tabs, blank lines)" % (len(behs), total, 2 if quick else 3))
+    ctx.say("  behaviours: %d of %d (every sequence of %d edits (thorough: plus seeded walks of 3 and 5 edits) on each of 7 files in 18 file / layout combinations; each file rendered with seeded odd spacing, tabs, blank lines)" % (len(behs), total, 2))
     hb = core.build_harness(ctx)
     trace, summ = core.run_harness(ctx, hb, "writeedit", behs, "writeedit", timeout=2500)
     for inc in summ["incidents"]:
